@@ -383,7 +383,23 @@ func GenSpec(r *core.Rng) Spec {
 		s.Targets = append(s.Targets, t)
 	}
 	// initial placements: empty, sane, overloaded, duplicates, pending transfers
-	switch r.Intn(5) {
+	switch r.Intn(7) {
+	case 5: // leftovers of interrupted transfer chains: copies in arbitrary states, possibly none of them normal
+		for _, t := range s.Targets {
+			n := 1 + r.Intn(s.InitShards)
+			first := r.Intn(s.InitShards)
+			for k := 0; k < n; k++ {
+				s.Initial = append(s.Initial, Placement{Shard: (first + k) % s.InitShards, ID: t.ID, State: r.PickS("", "in_transfer", "in_transfer")})
+			}
+		}
+	case 6: // one target in transfer on every shard that holds it, the others placed sanely
+		for i, t := range s.Targets {
+			if i == 0 && s.InitShards > 1 {
+				s.Initial = append(s.Initial, Placement{Shard: 0, ID: t.ID, State: "in_transfer"}, Placement{Shard: 1, ID: t.ID, State: "in_transfer"})
+			} else if r.Intn(2) == 0 {
+				s.Initial = append(s.Initial, Placement{Shard: r.Intn(s.InitShards), ID: t.ID})
+			}
+		}
 	case 0:
 	case 1, 2:
 		for _, t := range s.Targets {
